@@ -7,7 +7,7 @@ package fn
 //@ spec p2(k int) real = ite(k <= 0, 1.0, 2.0*p2(k-1))
 
 //@ func FindRoot(fn, fn_dx, initialX, minX, maxX, tolerance, convergenceLimit, maxIterations) returns (x, delta)
-//@   locals maxDelta, minDelta, iteration, trialXs, trialDeltas, halvingX, bisectionX, deriv, newtonRaphsonX, minTrialX, minTrialDelta, maxTrialX, maxTrialDelta, hitConvergenceLimit, trial, trialDelta
+//@   locals maxDelta, minDelta, iteration@loop, trialXs, trialDeltas, halvingX, bisectionX, deriv, newtonRaphsonX, minTrialX, minTrialDelta, maxTrialX, maxTrialDelta, hitConvergenceLimit, trial@loop, trialDelta
 //@   loopsigs 7505cdc2 0d591bf0
 //@   safety C18
 //@   requires minX <= initialX && initialX <= maxX
@@ -33,7 +33,7 @@ package fn
 //@ # The same function under the additional assumption that fn is non-decreasing
 //@ # (first half of the property statement).
 //@ func FindRoot#monotone(fn, fn_dx, initialX, minX, maxX, tolerance, convergenceLimit, maxIterations) returns (x, delta)
-//@   locals maxDelta, minDelta, iteration, trialXs, trialDeltas, halvingX, bisectionX, deriv, newtonRaphsonX, minTrialX, minTrialDelta, maxTrialX, maxTrialDelta, hitConvergenceLimit, trial, trialDelta
+//@   locals maxDelta, minDelta, iteration@loop, trialXs, trialDeltas, halvingX, bisectionX, deriv, newtonRaphsonX, minTrialX, minTrialDelta, maxTrialX, maxTrialDelta, hitConvergenceLimit, trial@loop, trialDelta
 //@   loopsigs 7505cdc2 0d591bf0
 //@   requires minX <= initialX && initialX <= maxX
 //@   requires fn(minX) <= 0 && 0 <= fn(maxX) && fn(minX) < fn(maxX)
